@@ -458,12 +458,17 @@ func c06Other(x *mc.Exec) {
 
 // ---- whole-resource faithfulness -------------------------------------------
 
-func c06Resource(x *mc.Exec) {
+func c06Resource(x *mc.Exec) { c06ResourceBody(x, false) }
+
+// c06ResourceOrder explores the member-visiting order on a reduced product.
+func c06ResourceOrder(x *mc.Exec) { c06ResourceBody(x, true) }
+
+func c06ResourceBody(x *mc.Exec, order bool) {
 	soft := x.Choose(2, "impl") == 0
 	d := TypeD{Name: "t",
 		Attrs: []AttrD{{"s", Kind{j.AttrTypeString, false}}, {"i", Kind{j.AttrTypeInt8, false}}, {"b", Kind{j.AttrTypeBool, true}},
 			{"y", Kind{j.AttrTypeBytes, false}}, {"w", Kind{j.AttrTypeTime, true}}},
-		Rels: []RelD{{"one", true, "u", ""}, {"many", false, "u", ""}}}
+		Rels: []RelD{{"one", true, "u", ""}, {"many", false, "u", ""}, {"two", true, "u", ""}}}
 	u := TypeD{Name: "u"}
 	schema := BuildSchema([]TypeD{d, u}, []bool{soft, true})
 
@@ -484,7 +489,11 @@ func c06Resource(x *mc.Exec) {
 	var parts []string
 	want := map[string]any{}
 	for _, n := range names {
-		o := attrOpts[n][x.Choose(3, "attr "+n)]
+		nopt := 3
+		if order && n != "s" && n != "b" {
+			nopt = 1 // reduced product when the visiting order is explored
+		}
+		o := attrOpts[n][x.Choose(nopt, "attr "+n)]
 		if o.lit == "" {
 			want[n] = zero[n]
 			continue
@@ -506,14 +515,27 @@ func c06Resource(x *mc.Exec) {
 		{`{"meta":{}}`, nil}}
 	oo := oneOpts[x.Choose(len(oneOpts), "one")]
 	mo := manyOpts[x.Choose(len(manyOpts), "many")]
+	// a second to-one relationship: absent, null, identifier without id, identifier
+	twoOpts := []struct {
+		js  string
+		den string
+	}{{"", ""}, {`{"data":null}`, ""}, {`{"data":{"type":"u"}}`, ""}, {`{"data":{"type":"u","id":"k2"}}`, "k2"}}
+	to := twoOpts[x.Choose(len(twoOpts), "two")]
 	var rparts []string
+	if to.js != "" {
+		rparts = append(rparts, `"two":`+to.js)
+	}
 	if oo.js != "" {
 		rparts = append(rparts, `"one":`+oo.js)
 	}
 	if mo.js != "" {
 		rparts = append(rparts, `"many":`+mo.js)
 	}
-	id := []string{"id1", "a b", "é\"\\"}[x.Choose(3, "id")]
+	nid := 3
+	if order {
+		nid = 1
+	}
+	id := []string{"id1", "a b", "é\"\\"}[x.Choose(nid, "id")]
 	idJSON, _ := json.Marshal(id)
 	payload := `{"type":"t","id":` + string(idJSON)
 	if len(parts) > 0 {
@@ -529,7 +551,16 @@ func c06Resource(x *mc.Exec) {
 
 	var res j.Resource
 	var err error
-	p := Try(func() { res, err = j.UnmarshalResource([]byte(payload), schema) })
+	// the order in which the attribute and relationship members are visited is the
+	// runtime's choice: explore it (deviation bound 1)
+	var p string
+	if order {
+		WithMapDevIn(x, map[string]bool{"UnmarshalResource": true}, func() {
+			p = Try(func() { res, err = j.UnmarshalResource([]byte(payload), schema) })
+		})
+	} else {
+		p = Try(func() { res, err = j.UnmarshalResource([]byte(payload), schema) })
+	}
 	x.R.Add("transitions", 1)
 	x.Observe(payload, p, err != nil)
 	sig := "C06:resource:" + implName(soft)
@@ -551,6 +582,9 @@ func c06Resource(x *mc.Exec) {
 	}
 	if g, ok := res.Get("one").(string); !ok || g != oo.den {
 		x.Fail(sig+":to-one", "payload %s: to-one is %v, payload says %q", payload, res.Get("one"), oo.den)
+	}
+	if g, ok := res.Get("two").(string); !ok || g != to.den {
+		x.Fail(sig+":to-one", "payload %s (member order %v): to-one \"two\" is %v, payload says %q", payload, x.Choices(), res.Get("two"), to.den)
 	}
 	g, ok := res.Get("many").([]string)
 	gs, ws := append([]string{}, g...), append([]string{}, mo.den...)
@@ -604,12 +638,13 @@ func c06Resource(x *mc.Exec) {
 func init() {
 	Register(&Prop{
 		ID: "C06",
-		Rule: "Engine A, all choices Full: (a) 20 integer kinds x every integer literal in [-70000,70000] (exhaustive for 8/16-bit kinds and their out-of-range neighbourhood) + +-2^k+{-2..2} (k<=70) + +-10^k+{-1,0,1} (k<=21) + fractions/exponents/-0/null/true/false/strings/arrays, each through Attr.UnmarshalToType and through UnmarshalResource (soft and struct-backed); (b) string/bool/time/bytes kinds x alphabet in 3 JSON encodings, RFC3339 offsets x precisions, near-miss invalid times, canonical and non-canonical base64, wrong JSON kinds; (c) whole payloads: 3^5 attribute presence/value combinations x 5 to-one x 7 to-many forms x 3 ids x 2 implementations, re-marshaled and re-read. Oracle: accepted => stored value equals the math/big / own-unescaper / time.Parse / encoding/base64 reading of the literal; non-trivial = literal that is out of range, fractional, of the wrong kind, or a whole payload",
+		Rule: "Engine A, all choices Full: (a) 20 integer kinds x every integer literal in [-70000,70000] (exhaustive for 8/16-bit kinds and their out-of-range neighbourhood) + +-2^k+{-2..2} (k<=70) + +-10^k+{-1,0,1} (k<=21) + fractions/exponents/-0/null/true/false/strings/arrays, each through Attr.UnmarshalToType and through UnmarshalResource (soft and struct-backed); (b) string/bool/time/bytes kinds x alphabet in 3 JSON encodings, RFC3339 offsets x precisions, near-miss invalid times, canonical and non-canonical base64, wrong JSON kinds; (c) whole payloads: 3^5 attribute presence/value combinations x 5 x 4 forms of two to-one relationships x 7 to-many forms x 3 ids x 2 implementations, re-marshaled and re-read; a reduced product (2 attributes) under every iteration order of one member map inside UnmarshalResource (deviation bound 1). Oracle: accepted => stored value equals the math/big / own-unescaper / time.Parse / encoding/base64 reading of the literal; non-trivial = literal that is out of range, fractional, of the wrong kind, or a whole payload",
 		Assumptions: []string{"no completeness demand: exotic spellings may be rejected; only 'accepted => exact' is judged", "a panic counts as not accepted here (panic freedom is C05)"},
 		Harnesses: []Harness{
 			{Name: "C06/int", Body: c06Int, ShardDepth: 1},
 			{Name: "C06/other", Body: c06Other, ShardDepth: 1},
 			{Name: "C06/resource", Body: c06Resource},
+			{Name: "C06/resource-member-order", Body: c06ResourceOrder, Dev: func() int { return 1 }},
 		},
 	})
 }
